@@ -100,11 +100,15 @@ UNumeralVal(s, sign) == \* sign in {1,-1}; value as numeral
 \* that contains it is an integer numeral of more than 400 digits - far beyond the largest double - and converts to
 \* the nearest IEEE value, an infinity.  (Such strings occur only as node values in the number-conversion families.)
 HasZ(s) == \E i \in 1..Len(s) : s[i] = "Z400"
+\* "XMLNS" stands for the 36 characters of http://www.w3.org/XML/1998/namespace (the string-value of every xml namespace node)
+HasX(s) == \E i \in 1..Len(s) : s[i] = "XMLNS"
+HasWide(s) == HasZ(s) \/ HasX(s)
 \* the number of characters the abstract string stands for
-CharCount(s) == Len(s) + 399 * Cardinality({i \in 1..Len(s) : s[i] = "Z400"})
+CharCount(s) == Len(s) + 399 * Cardinality({i \in 1..Len(s) : s[i] = "Z400"}) + 35 * Cardinality({i \in 1..Len(s) : s[i] = "XMLNS"})
 \* searching b in a (or mapping the characters of b in a) is decided character by character only when no match can reach into
-\* a run of 400 zeros: b has no such run and, when a has one, no "0" either
-ZSafe(a, b) == ~HasZ(b) /\ (HasZ(a) => \A i \in 1..Len(b) : b[i] # "0")
+\* a symbol that stands for many characters: b has none and, when a has a run of zeros, no "0" either; when a has the namespace
+\* name, b is empty (any letter, digit, '/', ':' or '.' may match inside it)
+ZSafe(a, b) == ~HasWide(b) /\ (HasZ(a) => \A i \in 1..Len(b) : b[i] # "0") /\ (HasX(a) => b = <<>>)
 ZNumeral(u) == u # <<>> /\ IsDigit(u[1]) /\ u[1] # "0" /\ \A i \in 1..Len(u) : IsDigit(u[i]) \/ u[i] = "Z400"
 StrToNum(str) ==
   LET t == TrimWS(str)
